@@ -17,5 +17,6 @@ var verifHarnesses = map[string]func(){
 	"VerifC04Tampered": VerifC04Tampered,
 	"VerifC02Heal": VerifC02Heal,
 	"VerifC18Close": VerifC18Close,
+	"VerifC13Snapshot": VerifC13Snapshot,
 	"VerifC03LocalWrite": VerifC03LocalWrite,
 }
